@@ -272,9 +272,10 @@ def minimise(chk: Check, case, out, budget=300):
 
 
 def write_replay(chk, seed, run, case, out, tag="") -> str:
-    os.makedirs(os.path.join(VERIF_DIR, "replays"), exist_ok=True)
+    rdir = os.environ.get("VERIF_REPLAY_DIR") or os.path.join(VERIF_DIR, "replays")
+    os.makedirs(rdir, exist_ok=True)
     name = f"{chk.id}-{seed}-{run}{tag}.json"
-    path = os.path.join(VERIF_DIR, "replays", name)
+    path = os.path.join(rdir, name)
     with open(path, "w", encoding="utf-8") as f:
         json.dump(dict(property=chk.id, seed=seed, run=run, case=case,
                        expect=dict(sig=out["sig"], detail=out.get("detail", "")), log=out.get("log", [])),
@@ -295,7 +296,8 @@ def fresh_replay(path, expect_sig):
 
 
 def write_evidence(chk: Check, tier, seed, total, n_viol, known_hits, extra=None):
-    os.makedirs(os.path.join(VERIF_DIR, "evidence"), exist_ok=True)
+    edir = os.environ.get("VERIF_EVIDENCE_DIR") or os.path.join(VERIF_DIR, "evidence")
+    os.makedirs(edir, exist_ok=True)
     wall = max(total["wall_s"], 1e-6)
     cov = dict(
         evaluations=total["n"],
@@ -326,7 +328,7 @@ def write_evidence(chk: Check, tier, seed, total, n_viol, known_hits, extra=None
         cov.update(extra)
     ev = dict(property_id=chk.id, tier=tier, seed=seed, level="exploration", coverage=cov,
               assumptions=chk.assumptions, wall_s=round(total["wall_s"], 2), violations=n_viol)
-    path = os.path.join(VERIF_DIR, "evidence", f"{chk.id}.json")
+    path = os.path.join(edir, f"{chk.id}.json")
     tmp = path + ".tmp"
     with open(tmp, "w", encoding="utf-8") as f:
         json.dump(ev, f, ensure_ascii=False, indent=1, default=str)
